@@ -17,6 +17,26 @@ CHECKS = {
             "TLA+ spec RtmpChunk.tla: ConformantSend (all header-type/form/interleaving choices of RTMP 1.0 5.3.1) against the reference receiver Decode, model-checked by TLC; every TLC-found wire rendered to bytes by the spec and replayed into rtmp.Protocol.ReadMessage",
             "TLC proves on bounded families that the specification's conformant sender and reference receiver agree (DecodeOk, Agree) and that each rule violation is rejected; every wire TLC finds (about 11k in quick, 150k+ plus simulation in thorough) is fed as bytes to the real reader under three segmentations and must deliver exactly the specification's messages, timestamps and error/EOF outcome",
             "trusts TLC, the LD expander and the transcription of RTMP 1.0 section 5.3 in RtmpChunk.tla; sender timestamps < 2^31; no Abort; bounds per family cfg", "5/C02"),
+    "C03": ("model_checking",
+            "TLA+ specs RtmpPacket.tla (packet layouts over AMF0, sizes, dispatch function) and RtmpTxn.tla (outstanding-request table, typed waits) model-checked by TLC; TLC-enumerated packet matrix and histories replayed into real rtmp.Protocol endpoints with the pending table compared after every step",
+            "TLC checks MatchOnce/OnePerTid on every history of sends, peer items, decodes and typed waits within the bounds (and shows a lookup-without-delete deviation violates it); the full packet matrix (all kinds, optional fields, 65536 user-control event types) is enumerated with the specification's layout/size/dispatch kind and every packet and every history (about 25k quick) is executed by the real code: marshal = layout, Size() exact, unmarshal equal, peer decodes to the protocol's type, transaction table equal to the model's after each step, typed waits return the first match",
+            "trusts TLC, the LD expander, the verif export shim (pending table) and the transcription of RTMP 1.0 sections 5.4/7.1/7.2; command objects from a small family", "5/C03"),
+    "C09": ("model_checking",
+            "TLA+ spec FlvFile.tla: mux/transport/demux state machine with byte-level reference decoder, TLC invariants and two named deviations; TLC-generated files and seeded walks replayed into the flv muxer/demuxer, layout from the spec as oracle",
+            "TLC explores every interleaving of muxer calls, segment deliveries and demuxer calls for all flag combinations and small tag lists (Layout, RefDec, Prefix, Final, Framing, Monotone); the boundary matrix (sizes to 2^24-1, timestamps around 2^24/2^32-1) is enumerated and each file is replayed: library bytes must equal the specification's byte for byte, and the demuxer must return the same tags from library-written and spec-written bytes under whole/1-byte/random segmentation",
+            "trusts TLC, the LD expander and the transcription of FLV v10.1 Annex E; bodies are patterns; schedules from simulation are sampled", "5/C09"),
+    "C10": ("model_checking",
+            "TLA+ spec FlvTag.tla (audio/video tag bodies per FLV E.4.2/E.4.3 + Opus extension, canonical predicates) checked by TLC incl. deviation; TLC-enumerated codec matrix replayed both directions into the flv packagers",
+            "TLC proves on the specification that round trip, first byte and reproduction hold for every first byte and trait byte and that the named 'Opus rate not masked' deviation breaks FirstByte; 42k (quick) / 419k (thorough) cases are replayed: Decode(Encode(f)) = f, whole first byte, Encode(Decode(b)) = b on spec-written bodies, ToHz/OpusToHz over 0..255",
+            "states = finite case matrix; payload patterns; dimensions factored; symmetric deviations beyond the first byte are info only because the property asks for round trips", "5/C10"),
+    "C11": ("model_checking",
+            "TLA+ spec Adts.tla (ADTS object state machine + ISO 13818-7 header / ASC layout functions, reference decoder) checked by TLC incl. 7-byte-CRC deviation; TLC-enumerated matrices and behaviours replayed into the aac package",
+            "TLC checks all interleavings of SetASC/Encode/ISO-writer/Decode writing up to 3 frames (every stream decodes frame by frame to exactly its raw blocks, remainder at the next sync word), the layout functions over the full finite matrices (65536 ASC values, all header field combinations), and every enumerated case/behaviour is replayed into the real library with the specification's bytes, results and abstract state as oracle",
+            "trusts TLC, the LD expander and the transcription of ISO 13818-7 6.2 / 14496-3 1.6.2.1; CRC value itself is not checked (library does not verify it); ID/private/copyright/fullness bits of encoder output not judged", "5/C11"),
+    "C19": ("model_checking",
+            "TLA+ spec HttpApi.tla (request -> handler decision table -> client verdict) checked by TLC with six named deviations; TLC-enumerated table replayed into the real handlers (ResponseRecorder) and ApiRequest over a loopback server",
+            "for every row of the answer table (kinds x codes incl. negatives and 64-bit extremes x statuses x value classes incl. unmarshalable x callback forms) the real handlers through every public entry point produce the response the specification predicts, and the client half never confuses success and failure",
+            "pure decision table; encoding/json and net/http trusted for parsing; plain-error text assumed not to be a JSON object with code 0 (client ignores the HTTP status)", "5/C19"),
     "C12": ("model_checking",
             "TLA+ spec Avc.tla (TLC: round-trip/reserved-bit invariants) + TLC-enumerated cases replayed into avc package, ISO layout from the spec as oracle",
             "TLC exhaustively checks the AVC container spec (records, samples, NAL units) for self-consistency on small values, enumerates the boundary value matrix, and every enumerated value is replayed into the real marshal/unmarshal code with the spec's byte layout as the independent oracle",
